@@ -42,7 +42,8 @@ ASSUMPTIONS = ["oracle (ii) is evaluated on token-clean lists (every field a non
                "are not used as genuine values",
                "a missing table file or directory is written `none` and read back as the text `none`: identified",
                "in a tag list `generic` stands for the reader's flavor and entries of other flavors are not the reader's",
-               "`dummy` versions (which make remapEntries declare a product) are outside the model"]
+               "the `dummy` branch of remapEntries is observed by listing the scratch stack afterwards (set of products at version "
+               "dummy), not by the order of the declare calls"]
 
 NATIVE = "Linux"
 FLAVORS = ["Linux", "Linux64", "DarwinX86", "generic"]
@@ -137,9 +138,21 @@ def gen_taglist(rng):
         a = dict(rng.choice(adds))
         a["version"] = gen_version(rng)
         adds.append(a)
-    return {"kind": "taglist", "tag": rng.choice(["current", "stable", "beta", "w_2012_10"]), "defFlavor": def_flavor,
-            "adds": adds, "writeFlavor": rng.choice([None, None, None, "Linux", "generic"]),
-            "readFlavor": rng.choice([def_flavor, def_flavor, None, "Linux", "Linux64", "generic"])}
+    tag = rng.choice(["current", "stable", "beta", "w_2012_10"])
+    if rng.random() < 0.2:          # release names are free text: dots, pluses, parentheses (the header pattern is built from them)
+        tag = rng.choice(ODD_TAGS)
+    c = {"kind": "taglist", "tag": tag, "defFlavor": def_flavor,
+         "adds": adds, "writeFlavor": rng.choice([None, None, None, "Linux", "generic"]),
+         "readFlavor": rng.choice([def_flavor, def_flavor, None, "Linux", "Linux64", "generic"])}
+    if rng.random() < 0.12:         # a reader that expects another tag: the header names the tag and must be checked
+        other = {"v1.0": "v1x0", "v1x0": "v1.0", "w.2012.10": "w_2012_10", "a|b": "a", "x*": "x", "q?": "q"}
+        c["readTag"] = other.get(tag) or rng.choice(["current", "stable", "v1.0", "beta2"])
+        if c["readTag"] == tag:
+            del c["readTag"]
+    return c
+
+
+ODD_TAGS = ["v1.0", "v1x0", "c++", "gcc4.8+boost", "rel(1)", "x*", "b[1]", "q?", "a|b", "w.2012.10", "rc^2", "pay$", "{x}"]
 
 
 def gen_server(rng):
@@ -252,6 +265,24 @@ def gen_remap(rng):
             line = d["product"] + (":" + inv if inv else "") + "   " + out + ("  " + fl if fl else "")
             rules.insert(rng.randint(0, len(rules)), {"product": d["product"], "inV": inv, "act": "version", "out": out,
                                                       "flavor": fl or "generic", "mode": None, "line": line})
+    known = []
+    if deps and rng.random() < 0.25:
+        # the `dummy` branch: entries changed into version `dummy` make remapEntries declare that product
+        for _ in range(rng.randint(1, 3)):
+            d = rng.choice(deps)
+            rules = [r for r in rules if r["product"] != d["product"]]
+            target = rng.choice([None, "stub", "stub", "tcltk_dummy"])
+            inv = rng.choice([None, "any", d["version"]])
+            out = (target + ":" if target else "") + rng.choice(["dummy", "dummy", "dummy", "Dummy", "dummy1"])
+            fl = rng.choice([None, None, NATIVE, "Linux64"])
+            line = d["product"] + (":" + inv if inv else "") + "   " + out + ("  " + fl if fl else "")
+            rules.append({"product": d["product"], "inV": inv, "act": "rename" if target else "version", "out": out,
+                          "flavor": fl or "generic", "mode": None, "line": line})
+        known = [k for k in ["stub", "tcltk_dummy"] + [d["product"] for d in deps[:2]]
+                 if rng.random() < 0.25 and re.match(r"^[a-zA-Z_0-9]+$", k)]
+        if rng.random() < 0.3:
+            dd = rng.choice(deps)               # an entry that is at version dummy already: not changed, nothing declared
+            dd["version"] = "dummy"
     files = [[], []]
     for r in rules:
         files[rng.randint(0, 1)].append(r)
@@ -267,8 +298,17 @@ def gen_remap(rng):
         p = rng.choice(names)
         arg_adds.append({"inP": p, "inV": rng.choice(["any", "1.0"]), "outP": None, "outV": "7.0", "flavor": "generic",
                          "overwrite": True})
-    return {"kind": "remap", "deps": deps, "files": texts, "rules": [[r for r in f] for f in files], "adds": arg_adds,
-            "mode": rng.choice([None, None, "create", "install"])}
+    c = {"kind": "remap", "deps": deps, "files": texts, "rules": [[r for r in f] for f in files], "adds": arg_adds,
+         "mode": rng.choice([None, None, "create", "install"])}
+    if known or any("ummy" in l for t in texts for l in l_iter(t)):
+        c["known"] = sorted(set(known))
+        if rng.random() < 0.7:
+            c["mode"] = None
+    return c
+
+
+def l_iter(t):
+    return t
 
 
 # ---- implementation --------------------------------------------------------------------------------
@@ -354,7 +394,7 @@ def impl_taglist(c):
     out["text"] = strip_block(raw, TAG_BLOCK)
     out["raw"] = raw
     try:
-        t2 = server.TaggedProductList.fromFile(path, c["tag"], flavor=c["readFlavor"])
+        t2 = server.TaggedProductList.fromFile(path, c.get("readTag", c["tag"]), flavor=c["readFlavor"])
         out["read"] = {"products": t2.getProducts()}
     except Exception as e:  # noqa
         out["read"] = {"error": exc_name(e)}
@@ -440,10 +480,32 @@ def impl_mapping(c):
     return out
 
 
-def impl_remap(c):
+def _remap_dummy_child(c):
+    """remapEntries on a stack of its own (forked child): the `dummy` branch declares products there."""
+    root = common.scratch("c18d")
+    try:
+        common.mkstacks(root)
+        E = common.new_eups()
+        E._c18root = root
+        for k in c["known"]:
+            E.declare(k, "dummy", "none", tablefile="none")
+        E = common.new_eups()
+        E._c18root = root
+        out = impl_remap(c, E)
+        after = common.new_eups()
+        out["declared"] = sorted(p.name for p in after.findProducts(version="dummy") if p.name not in c["known"])
+        return out
+    finally:
+        common.rmtree(root)
+
+
+def impl_remap(c, E=None):
     from eups.distrib import server
     import eups.hooks as hooks
-    E = _eups()
+    if E is None and "known" in c:
+        r = common.in_child(_remap_dummy_child, c)
+        return r[1] if r[0] == "ok" else {"error": "CHILD:" + str(r[1:3])}
+    E = E or _eups()
     dirs = []
     for i, ls in enumerate(c["files"]):
         d = os.path.join(E._c18root, "cust%d" % i)
@@ -454,7 +516,7 @@ def impl_remap(c):
     saved = hooks.customisationDirs
     hooks.customisationDirs = dirs
     try:
-        man = server.Manifest("top", "1.0", eupsenv=E, verbosity=-1)
+        man = server.Manifest("top", "1.0", eupsenv=E, verbosity=-1, log=open(os.devnull, "w"))
         for d in c["deps"]:
             man.addDependency(d["product"], d["version"], d["flavor"], d["tablefile"], d["instDir"], d["distId"], d["isOpt"],
                               d["recurse"], list(d["extra"]))
@@ -462,7 +524,7 @@ def impl_remap(c):
             man.remapEntries(mapping=build_mapping(c["adds"]), mode=c["mode"])
         except Exception as e:  # noqa
             return {"error": "EXC:" + type(e).__name__}
-        return {"deps": [dep_dict(d) for d in man.getProducts()], "dump": dump_table(man.mapping._mapping)}
+        return {"deps": [dep_dict(d) for d in man.getProducts()], "dump": dump_table(man.mapping._mapping), "declared": []}
     finally:
         hooks.customisationDirs = saved
 
@@ -554,8 +616,14 @@ def oracle_taglist(c, io_):
     if not clean_taglist(c) or "read" not in io_:
         return
     rd = io_["read"]
+    if c.get("readTag", c["tag"]) != c["tag"]:
+        # the header names the tag: a reader that expects another tag refuses the file
+        if "error" not in rd:
+            yield ("taglist_header_names_the_tag", None, "a reader for tag %r accepted the list written for tag %r" %
+                   (c["readTag"], c["tag"]))
+        return
     if "error" in rd:
-        yield ("taglist_reads_back", None, "reading the written list raised: %s" % rd["error"])
+        yield ("taglist_reads_back", None, "reading the list written for tag %r raised: %s" % (c["tag"], rd["error"]))
         return
     listflavor = c["defFlavor"] or "generic"
     reader = c["readFlavor"] or "generic"
@@ -644,7 +712,25 @@ def remap_matches(exp, got):
     return True
 
 
+def oracle_dummy(c, io_):
+    """The `dummy` branch, from the rules' meaning: a product is declared (version dummy) iff it was not declared before and
+    some entry is changed by its rule into that product at version dummy.  Same preconditions as oracle_remap."""
+    rules = [r for f in c["rules"] for r in f]
+    if "known" not in c or c["adds"] or not remap_simple(rules) or "declared" not in io_:
+        return
+    exp = set()
+    for kind, e in remap_expected(c, rules, True):
+        # (Eups.declare refuses names outside [a-zA-Z_0-9]; remapEntries prints the exception and goes on)
+        if kind == "new" and e[1] == "dummy" and e[0] not in c["known"] and re.match(r"^[a-zA-Z_0-9]*$", e[0]):
+            exp.add(e[0])
+    if sorted(exp) != io_["declared"]:
+        yield ("remap_declares_exactly_the_missing_dummy_products", None,
+               "expected %r declared at version dummy, found %r (already declared: %r)" % (sorted(exp), io_["declared"], c["known"]))
+
+
 def oracle_remap(c, io_):
+    for x in oracle_dummy(c, io_):
+        yield x
     """Entries no rule names stay untouched and in place; an entry named by a rule is replaced, renamed or deleted as
     the rule says (the rule for the entry's own version before the rule for `any`).  Evaluated when the rules of each
     product are of one flavor and have distinct in-versions (other tables are left to the correspondence with the
@@ -735,7 +821,7 @@ def model_requests(c, io_):
         base = {"m": "c18", "tag": c["tag"], "defFlavor": c["defFlavor"]}
         reqs = [dict(base, op="twrite", adds=c["adds"], flavor=c["writeFlavor"])]
         if "raw" in io_:
-            reqs.append({"m": "c18", "op": "tread", "tag": c["tag"], "defFlavor": c["readFlavor"], "adds": [], "text": io_["raw"]})
+            reqs.append({"m": "c18", "op": "tread", "tag": c.get("readTag", c["tag"]), "defFlavor": c["readFlavor"], "adds": [], "text": io_["raw"]})
         return reqs
     if k == "server":
         return [{"m": "c18", "op": "server", "files": io_["files"], "reqs": c["reqs"], "byTagOnly": False}]
@@ -743,7 +829,7 @@ def model_requests(c, io_):
         return [{"m": "c18", "op": "mapping", "adds": c["adds"], "queries": c["queries"]}]
     if k == "remap":
         return [{"m": "c18", "op": "remap", "adds": c["adds"], "files": c["files"], "mode": c["mode"], "flavor": NATIVE,
-                 "deps": c["deps"], "pinned": False}]
+                 "deps": c["deps"], "pinned": False, "known": c.get("known", [])}]
     raise ValueError(k)
 
 
@@ -766,6 +852,8 @@ def model_output(c, io_, answers):
     if k == "server":
         return {"answers": answers[0]["answers"]}
     a = answers[0]
+    if "declared" in a:
+        a = dict(a, declared=sorted(a["declared"]))      # the stack is listed by name afterwards, not in declaration order
     return a if "error" not in a else {"error": a["error"]}
 
 
@@ -783,7 +871,7 @@ def impl_view(c, io_):
 
 # ---- evaluation ------------------------------------------------------------------------------------
 
-NW = 6
+NW = 4
 
 
 def nontrivial(c, io_):
@@ -838,6 +926,10 @@ def evaluate(ctx, cases):
             ctx.hist("mapping:inverse=%s" % ("ok" if isinstance(io_["inverse"], dict) else io_["inverse"]))
         elif kind == "remap":
             ctx.hist("remap:mode=%s" % c["mode"])
+            if "known" in c:
+                ctx.hist("remap:dummy-case")
+                if io_.get("declared"):
+                    ctx.hist("remap:dummy-declared")
         elif kind == "server":
             ctx.hist("server:requests", len(c["reqs"]))
             if nontrivial(c, io_):
@@ -910,6 +1002,9 @@ def run(ctx):
     if h.get("server:mixed-flavors-several-readers", 0) < 0.5 * max(1, h.get("kind=server", 0)):
         raise common.InfraError("degenerate distribution: %d server histories asking several flavors of a mixed-flavor release"
                                 % h.get("server:mixed-flavors-several-readers", 0))
+    if h.get("remap:dummy-declared", 0) < 15:
+        raise common.InfraError("degenerate distribution: the dummy branch of remapEntries declared a product in %d cases"
+                                % h.get("remap:dummy-declared", 0))
     if h.get("manifest:mixed-flavors", 0) < 0.3 * max(1, h.get("kind=manifest", 0)):
         raise common.InfraError("degenerate distribution: %d manifests with mixed flavors" % h.get("manifest:mixed-flavors", 0))
 
@@ -924,3 +1019,7 @@ def replay(ctx, rp):
     impl = ctx.failures[before[0]]["impl_output"] if fails else (dis[0]["impl"] if dis else None)
     model = ctx.failures[before[0]]["model_output"] if fails else (dis[0]["model"] if dis else None)
     return {"input": c, "impl_output": impl, "model_output": model, "agree": not dis, "disagreements": dis, "fails": fails}
+
+
+def gen_case(rng, kind):
+    return GEN[kind](rng)
